@@ -360,6 +360,12 @@ func (u *Union) optMerge(mode Mode, req Require) (Cost, Cost, *unionApproach) {
 // extend column), and Lookup via Select+Get would return more than one row.
 // When no order qualifies, optMerge returns impossible and the optimizer
 // falls back to wrapping the union in a TempIndex.
+//
+// ReqOrder and ReqGroup are requirements on the merged RESULT, so they can
+// only ignore columns that are fixed to a single value in the union as a whole.
+// A column fixed to a different value in each source (e.g. the disjoint column)
+// varies in the result: merging on (d) does not group by (d,a) when a is false
+// in source1 and true in source2.
 func (u *Union) mergeIndexes(req Require) [][]string {
 	keys := u.Keys()
 	fixed := u.Fixed()
@@ -370,6 +376,14 @@ func (u *Union) mergeIndexes(req Require) [][]string {
 	keys2 := u.source2.Keys()
 	indexes2 := u.source2.Indexes()
 	needResultKey := req.use == ReqUnique
+	satisfied := func(order []string) bool {
+		if req.use == ReqOrder || req.use == ReqGroup {
+			return req.SatisfiedByWithFixed(order, fixed)
+		}
+		// Lookup selects on each source separately
+		return req.SatisfiedByWithFixed(order, fixed1) &&
+			req.SatisfiedByWithFixed(order, fixed2)
+	}
 	var results [][]string
 	for _, idx1 := range indexes1 {
 		for _, idx2 := range indexes2 {
@@ -377,8 +391,7 @@ func (u *Union) mergeIndexes(req Require) [][]string {
 			if len(order) > 0 &&
 				hasKey(order, keys1, fixed1) &&
 				hasKey(order, keys2, fixed2) &&
-				req.SatisfiedByWithFixed(order, fixed1) &&
-				req.SatisfiedByWithFixed(order, fixed2) &&
+				satisfied(order) &&
 				(!needResultKey || hasKey(order, keys, fixed)) &&
 				!slc.ContainsFn(results, order, slices.Equal) {
 				results = append(results, order)
@@ -388,8 +401,7 @@ func (u *Union) mergeIndexes(req Require) [][]string {
 	// try bare common keys, probably requiring temp indexes
 	commonKeys := set.IntersectFn(keys1, keys2, set.Equal)
 	for _, key := range commonKeys {
-		if req.SatisfiedByWithFixed(key, fixed1) &&
-			req.SatisfiedByWithFixed(key, fixed2) &&
+		if satisfied(key) &&
 			(!needResultKey || hasKey(key, keys, fixed)) &&
 			!slc.ContainsFn(results, key, slices.Equal) {
 			results = append(results, key)
